@@ -47,6 +47,9 @@ class EngineProp(Prop):
                 script.append(group)
             if case['profile'] == 'loss' and not H.closed_seen:
                 tail = [[rng.choice([{'op': 'lost', 'mode': 'eof'}, {'op': 'lost', 'mode': 'error'}, {'op': 'close'}])]]
+                if rng.random() < 0.35:
+                    # a one-way request handed to the library in the same loop iteration as the end of the connection
+                    tail[0].insert(0, rng.choice([{'op': 'FNF', 'data': sh.fresh(1)}, {'op': 'MP', 'data': sh.fresh(1)}]))
                 for group in tail:
                     for s in group:
                         await H.apply_async(s)
